@@ -60,6 +60,8 @@ pub struct Violation {
   pub input: String,
   pub expected: String,
   pub observed: String,
+  /// the most recent request line recorded before the violation was raised (links the violation to the correspondence)
+  pub req: String,
 }
 
 pub struct Out {
@@ -71,6 +73,7 @@ pub struct Out {
   pub violations: Vec<Violation>,
   pub samples: Vec<String>,
   pub distinct: std::collections::HashSet<u64>,
+  pub last_req: String,
 }
 
 impl Out {
@@ -80,7 +83,7 @@ impl Out {
       req: BufWriter::new(File::create(format!("{}/req.txt", dir)).unwrap()),
       imp: BufWriter::new(File::create(format!("{}/impl.txt", dir)).unwrap()),
       n_req: 0, evaluations: 0, stats: BTreeMap::new(), violations: Vec::new(), samples: Vec::new(),
-      distinct: std::collections::HashSet::new(),
+      distinct: std::collections::HashSet::new(), last_req: String::new(),
     }
   }
   /// record a request line and the implementation's canonical answer
@@ -88,6 +91,7 @@ impl Out {
     writeln!(self.req, "{}", req).unwrap();
     writeln!(self.imp, "{}", ans).unwrap();
     self.n_req += 1;
+    self.last_req.clear(); self.last_req.push_str(&req[..req.len().min(2000)]);
     if self.samples.len() < 12 && (self.n_req % 97 == 1) {
       self.samples.push(format!("{} => {}", req, ans));
     }
@@ -102,7 +106,7 @@ impl Out {
     let n_kind = *self.stats.get(&format!("violation:{}", kind)).unwrap_or(&0);
     if self.violations.len() < 400 && n_kind < 25 {
       let cut = |s: String| if s.len() > 1500 { let mut e = 1500; while !s.is_char_boundary(e) { e -= 1; } format!("{}…(truncated, {} bytes)", &s[..e], s.len()) } else { s };
-      self.violations.push(Violation { kind: kind.to_string(), input: cut(input), expected: cut(expected), observed: cut(observed) });
+      self.violations.push(Violation { kind: kind.to_string(), input: cut(input), expected: cut(expected), observed: cut(observed), req: self.last_req.clone() });
     }
     self.stat(&format!("violation:{}", kind));
   }
@@ -127,7 +131,7 @@ impl Out {
     write!(f, "],\"violations\":[").unwrap();
     for (i, v) in self.violations.iter().enumerate() {
       if i > 0 { write!(f, ",").unwrap(); }
-      write!(f, "{{\"kind\":{},\"input\":{},\"expected\":{},\"observed\":{}}}", js(&v.kind), js(&v.input), js(&v.expected), js(&v.observed)).unwrap();
+      write!(f, "{{\"kind\":{},\"input\":{},\"expected\":{},\"observed\":{},\"req\":{}}}", js(&v.kind), js(&v.input), js(&v.expected), js(&v.observed), js(&v.req)).unwrap();
     }
     writeln!(f, "]}}").unwrap();
     f.flush().unwrap();
